@@ -416,6 +416,19 @@ func dependsOn(v ssa.Value, pred func(ssa.Value) bool, stopAtPhi bool) bool {
 						return true
 					}
 				}
+				// element / field stores into the allocated array or struct
+				if av, ok := ref.(ssa.Value); ok {
+					switch ref.(type) {
+					case *ssa.IndexAddr, *ssa.FieldAddr:
+						for _, r2 := range *av.Referrers() {
+							if st, ok := r2.(*ssa.Store); ok && st.Addr == av {
+								if rec(st.Val, d+1) {
+									return true
+								}
+							}
+						}
+					}
+				}
 			}
 		}
 		if in, ok := v.(ssa.Instruction); ok {
